@@ -93,7 +93,7 @@ func Harness_C18_purge_during_fetch() {
 	verifAssume(s0 == StatusFetching)
 	// a second request registers as a waiter (the critical section of Get(), without parking)
 	e.mu.Lock()
-	_, done, _ := e.get()
+	_, done, _ := e.get(ghostClock)
 	e.mu.Unlock()
 	verifAssume(done != nil)
 	d.RemoveHTTPCache(k) // must not block: a blocked path is reported as no-deadlock
